@@ -593,6 +593,28 @@ fn gen_x509_rt(r: &mut Rng, out: &mut Out) -> String {
     } else {
         out.stat("x509_rt_legal_shape", 1);
     }
+    // one structural variant of the encoding (see `x509::build`): forms the parser has its own branch for
+    if r.chance(1, 3) {
+        let x = *r.pick(&[
+            "caf", "uid", "akx", "aka", "akn", "kun", "ku3", "kup", "ku0", "vlc", "vps", "dup", "mrd", "ext0", "ver1", "ver0",
+            "nover", "sa5", "e4", "noext",
+        ]);
+        out.stat(&format!("x509_rt_variant_{}", x), 1);
+        f.insert("x", x.into());
+    } else if r.chance(1, 6) {
+        // raw time elements: UTCTime 1950..1969, leap days, month / day / hour overflow, missing `Z`, GeneralizedTime
+        // before 2050 and with fractions, wrong lengths
+        let t = *r.pick(&[
+            "17:3530303130313030303030305a", "17:3639313233313233353935395a", "17:3730303130313030303030305a",
+            "17:3234303232393233353935395a", "17:3233303232393030303030305a", "17:3234313333313030303030305a",
+            "17:3234303433313030303030305a", "17:3234303130313234303030305a", "17:32343031303130303030303030",
+            "17:323430313031303030303030", "18:32303234303232393233353935395a", "18:31393730303130313030303030305a",
+            "18:31393639313233313233353935395a", "18:32303234303232393233353935392e305a", "18:39393939313233313233353935395a",
+            "18:30303030303130313030303030305a", "17:32ff303130313030303030305a", "0c:3234303130313030303030305a",
+        ]);
+        out.stat("x509_rt_raw_time", 1);
+        f.insert(if r.chance(1, 2) { "nbraw" } else { "naraw" }, t.into());
+    }
     let toks: Vec<String> = f.iter().map(|(k, v)| format!("{}={}", k, v)).collect();
     format!("rt {} {}", ty, toks.join(" "))
 }
